@@ -186,8 +186,14 @@ def case_cell(ctx, p):
     for mod, k, m in ((ctx.T, oracle.TWO_PI, "tools"), (ctx.L, 1.0, "laue")):
         cf = gen.as_form(c, fk)            # list / tuple / float array of the same six numbers
         mon.config("argument form:%s" % type(cf).__name__)
-        A = mod.form_a_mat(cf)
-        B = mod.form_b_mat(cf)
+        if fk == 0:
+            A = ctx.probe_alias(mod.form_a_mat, cf)
+            B = ctx.probe_alias(mod.form_b_mat, cf)
+            ctx.probe_alias(mod.form_a_mat_inv, cf)
+            ctx.probe_alias(mod.cell_invert, cf)
+        else:
+            A = mod.form_a_mat(cf)
+            B = mod.form_b_mat(cf)
         V = mod.cell_volume(cf)
         mon.close("workload:%s.detA=volume" % m, np.linalg.det(A), V, rtol=RTOL)
         _cells_equal(mon, "workload:%s.a_to_cell(form_a_mat)" % m, mod.a_to_cell(A), c)
